@@ -1441,6 +1441,25 @@ func c03SyncGated(c *Ctx) {
 				}
 			} else {
 				_, ok = c.Guarded(cs.In, EqNil(Is(herr)), true)
+				if !ok {
+					// the head travels in a field of a request object: every path from the store of the queried head
+					// to the sync takes the err == nil edge of a test of the query's error
+					var hstores []*ssa.Store
+					instrs(f.SSA, func(in ssa.Instruction) {
+						if st, isSt := in.(*ssa.Store); isSt && Same(c.E(st.Val), hcid) {
+							hstores = append(hstores, st)
+						}
+					})
+					ok = len(hstores) > 0
+					for _, st := range hstores {
+						if !pathsBetweenCarry(c, st.Block(), cs.In.Block(), func(fct Fact) bool {
+							_, m := Match(EqNil(Is(herr)), fct.Cond)
+							return m && fct.Val
+						}) {
+							ok = false
+						}
+					}
+				}
 			}
 			c.Check(ok, "C03.V6-sync-gated-by-head", f.Name+" › sync", cs.In.Pos(), "the queried head reaches the sync only through the head query's err == nil edge", "a sync can run with a head whose query/validation failed")
 		}
@@ -1617,4 +1636,40 @@ func tailWraps(fn, target *ssa.Function, depth int) bool {
 		}
 	}
 	return n > 0
+}
+
+// pathsBetweenCarry: every path from block from to block to takes at least one
+// branch edge that establishes a fact satisfying pred (decided by removing
+// those edges and asking whether to is still reachable).
+func pathsBetweenCarry(c *Ctx, from, to *ssa.BasicBlock, pred func(Fact) bool) bool {
+	if from == to {
+		return false
+	}
+	seen := map[*ssa.BasicBlock]bool{}
+	var rec func(b *ssa.BasicBlock) bool
+	rec = func(b *ssa.BasicBlock) bool {
+		if b == to {
+			return true
+		}
+		if seen[b] {
+			return false
+		}
+		seen[b] = true
+		for _, s := range b.Succs {
+			est := false
+			for _, fct := range edgeFact(c, b, s) {
+				if pred(fct) {
+					est = true
+				}
+			}
+			if est {
+				continue
+			}
+			if rec(s) {
+				return true
+			}
+		}
+		return false
+	}
+	return !rec(from)
 }
